@@ -13,7 +13,7 @@ from .models import Models
 from .source import Source
 from .spec import Schema
 
-SIDE_MODULES = ["specfns", "autodiff_c"]
+SIDE_MODULES = ["specfns", "vecspec", "autodiff_c"]
 
 
 class Engine:
@@ -31,8 +31,11 @@ class Engine:
             self.side[m] = mod
             if m == "specfns":
                 mod.install(self.reg)
-            else:
+            elif hasattr(mod, "install"):
                 mod.install(self.reg, self.src)
+        from contracts import seqtheory
+        self.reg.saturate_hook = seqtheory.saturate
+        self.reg.loop_index_hook = lambda ip, i: seqtheory.add_index(ip, i, loop=True)
 
     def schema_factory(self):
         if not hasattr(self, "_schema"):
